@@ -243,7 +243,7 @@ fn run_pass(exe: &Path, a: &CheckArgs, first: u64, n: u64) -> Pass {
                     if let Some((i, t)) = w.current {
                         let limit = if w.phase == "reference" || w.phase == "begin" { ref_watchdog } else { watchdog };
                         if t.elapsed() > limit {
-                            eprintln!("watchdog: scenario {i} exceeded {watchdog:?}; killing its worker");
+                            eprintln!("watchdog: scenario {i} (phase {}) exceeded {limit:?}; killing its worker", w.phase);
                             let _ = w.child.kill();
                         }
                     }
